@@ -1,11 +1,15 @@
+#![allow(dead_code)]
 //! cvh — conformance harness binding the TLA+ specifications under /verif/tla to the real
 //! calamine built from /repo's working tree (path dependency, --cfg calamine_verif).
 //!
 //!   cvh replay <spec> --in behaviours.ndjson --out report.json [opts]   (spec -> code)
 //!   cvh drive  <spec> --out trace.ndjson [--n N] [opts]                 (code -> spec traces)
+mod build;
 mod common;
+mod observe;
 mod props;
 
+#[allow(unused_imports)]
 use common::Args;
 
 fn main() {
